@@ -191,6 +191,23 @@ func ZZ_C12_Recharge() {
 	// unknown subscriber: nothing is sent
 	p.NotifyRecharge(zzSupi2, rg)
 	vx.Assert("no notification for an unknown subscriber", vx.Notifications() == n0+1)
+	// every recharge is notified, whatever the history of the group: a second
+	// recharge in a row, and a recharge after the group has been used by an update
+	n1 := vx.Notifications()
+	p.NotifyRecharge(zzSupi, rg)
+	vx.Assert("a second recharge of the same group is notified as well", vx.Notifications() == n1+1)
+	if loc := vx.HTTPHeader(c1, "Location"); strings.HasPrefix(loc, zzRefPrefix) && rg >= 0 && rg <= 127 {
+		zzAccount(zzSupi, rg, 1000000, 10)
+		u, _ := zzUsageInd("u0", rg, 1, 1)
+		zzSmallUsage(&u)
+		u.UsedUnitContainer[0].QuotaManagementIndicator = models.QuotaManagementIndicator_ONLINE_CHARGING
+		c2 := &gin.Context{}
+		p.HandleChargingdataUpdate(c2, models.ChfConvergedChargingChargingDataRequest{SubscriberIdentifier: zzSupi,
+			MultipleUnitUsage: []models.ChfConvergedChargingMultipleUnitUsage{u}}, loc[len(zzRefPrefix):])
+		n2 := vx.Notifications()
+		p.NotifyRecharge(zzSupi, rg)
+		vx.Assert("a recharge of a group in use is notified", vx.Notifications() == n2+1)
+	}
 }
 
 type zzNotifyReq = Nchf_ConvergedCharging.PostChargingNotificationRequest
